@@ -243,6 +243,16 @@ def spec_opd(optic, field, w, px, py, xpl):
     with np.errstate(invalid='ignore'):
         s = dv + np.sqrt(dv * dv - (vv - R * R))      # going back from the image surface: P - s D on the sphere
     domain = (vv < R * R) & np.isfinite(s)             # image point inside the sphere: unique backward crossing
+    # every segment is travelled forwards: an image_solve behind a mirror can put the image surface in front of the
+    # last surface along the ray (virtual propagation, negative distance) - "the path" of such a ray is not defined
+    # by the property (the library counts the segment negative, a geometric length counts it positive)
+    for j in range(1, len(surfs)):
+        with np.errstate(invalid='ignore'):
+            domain &= ~(np.sum((P[j] - P[j - 1]) * D[j - 1], axis=-1) < -1e-9)
+    # ... and the light leaves the object towards +z (a stop behind a mirror can have its entrance pupil behind the
+    # start plane: the generator then launches the rays away from the lens and they meet the far sheet of the mirror)
+    with np.errstate(invalid='ignore'):
+        domain &= ~(D[0][:, 2] <= 0)
     Wn = opl + n_obj * head - n_img * s
     W1 = opl + head - s
     lam = w * 1e-3
@@ -256,7 +266,8 @@ def spec_opd(optic, field, w, px, py, xpl):
     atol = ATOL + 2.0 * sum(tols) / lam + 1e-14 * R / lam
     return {'atol': atol, 'opd': ((Wn[0] - Wn[1:]) / lam), 'opd_n1': ((W1[0] - W1[1:]) / lam), 'domain': domain[1:] & domain[0],
             'common_wavefront': parallel, 'scale': float(np.nanmax(np.abs(opl)) / lam) if nray else 0.0,
-            'n_img': n_img, 'n_obj': n_obj, 'R': R}
+            'n_img': n_img, 'n_obj': n_obj, 'R': R, 'optic': optic,
+            'rec': {'x': P[..., 0], 'y': P[..., 1], 'z': P[..., 2], 'L': D[..., 0], 'M': D[..., 1], 'N': D[..., 2]}}
 
 
 def agree(a, b, scale=0.0, atol=ATOL):
@@ -292,6 +303,21 @@ def check_opds(ctx, clause, case, impl, sp, where):
         if agree(impl[k], sp['opd'][k], sp['scale'], sp['atol']):
             continue
         key = known_key(sp) if agree(impl[k], sp['opd_n1'][k], sp['scale'], sp['atol']) else None
+        if key is None and sp.get('rec') is not None:
+            # Newton-Raphson surfaces stop their shared iteration on the whole batch (C02 F22b / C13 F22c): a ray on
+            # which the iteration has not converged when it stops is recorded at a rounding- and batch-dependent
+            # iterate, the library's batch and the one traced here are two such iterates - not a surface point
+            from . import c02
+            nsurf = sp['rec']['x'].shape[0]
+            try:
+                wand = any(c02.nr_wanders(sp['optic'], sp['rec'], j, r) for j in range(1, nsurf) for r in (0, k + 1))
+            except Exception:  # noqa
+                wand = False
+            if wand:
+                ctx.count('pred: sample on an unconverged Newton-Raphson iterate (soft; C02 F22b)')
+                ctx.drift.append({'what': 'OPD sample on an unconverged Newton-Raphson iterate', 'case': case,
+                                  'sample_index': k, 'impl': float(impl[k]), 'spec': float(sp['opd'][k])})
+                continue
         ctx.fail(clause, dict(case, where=where, sample_index=k), float(impl[k]), float(sp['opd'][k]), finding_key=key)
         if key is None:
             ok = False
